@@ -312,6 +312,43 @@ def run_chunk(exprs):
     return len(exprs), judged, rejected, viols, outcomes
 
 
+IDX_LETTERS = ["H", "D", "C", "N", "O", "F", "P", "S"]
+
+
+def run_idx_letters(_):
+    """every one-letter species index with its charge suffixes (naunet's convention: X, Xp, Xm) in three contexts:
+    the reference must name exactly the abundance macro of that species and nothing else may change"""
+    from ..harness.render import reset_globals, quiet
+
+    reset_globals()
+    from naunet.reactions.kromereaction import KROMEReaction
+
+    KROMEReaction.initialize()
+    viols = []
+    n = 0
+    with quiet():
+        for X in IDX_LETTERS:
+            for suf, ali in (("", "I"), ("p", "II"), ("m", "M")):
+                for ctx_ in ("{}", "2d0*{}*exp(-1d2/Tgas)", "Tgas**0.5*{}/({}+1d0)"):
+                    expr = ctx_.replace("{}", f"n(idx_{X}{suf})")
+                    n += 1
+                    case = {"expr": expr, "idx_letters": True}
+                    try:
+                        ctext = translate(expr)
+                    except Exception as e:
+                        viols.append((f"C12:idx-letter:raises:{X}{suf}", f"{expr!r}: translator raises {e!r}", case))
+                        continue
+                    macros = set(re.findall(r"IDX_\w+", ctext))
+                    want = {f"IDX_{X}{ali}"}
+                    rest = re.sub(r"y\[IDX_\w+\]", "Y", ctext)
+                    want_rest = re.sub(r"y\[IDX_\w+\]", "Y", translate(ctx_.replace("{}", "n(idx_H)")))
+                    if macros != want:
+                        viols.append((f"C12:idx-letter:wrong-macro:{X}{suf}", f"{expr!r} -> {ctext!r}: names {sorted(macros)}, the species {X}{'+' if suf == 'p' else '-' if suf == 'm' else ''} has {sorted(want)}", case))
+                    elif rest != want_rest:
+                        viols.append((f"C12:idx-letter:collateral:{X}{suf}", f"{expr!r} -> {ctext!r}: text around the reference changed (with idx_H: {want_rest!r})", case))
+    return n, viols
+
+
 def run_near_miss(_):
     from ..harness.render import reset_globals, quiet
 
@@ -395,6 +432,9 @@ def run(ctx):
         rejected += r
         outcomes |= oc
         ctx.absorb(viols)
+    for n, viols in ctx.pmap(run_idx_letters, [0]):
+        nidx = n
+        ctx.absorb(viols)
     for n, viols in ctx.pmap(run_near_miss, [0]):
         tot += n
         ctx.absorb(viols)
@@ -413,7 +453,8 @@ def run(ctx):
         "an expression the translator raises on counts as rejected (allowed by the property); it is never judged",
     ]
     return {
-        "evaluations": tot + nb,
+        "evaluations": tot + nb + nidx,
+        "one_letter_index_references": nidx,
         "distinct_nontrivial": judged + nb,
         "rule": "every binary expression tree with <=3 leaves over the leaf alphabet (thorough: 12 leaves, plus all 4-leaf trees over 4 leaves), printed with minimal and with full parentheses, plus function wrappers, abundance references, near-miss inputs and the rate expressions of the bundled KROME files; distinct strings; non-trivial = accepted by the translator and judged",
         "samples": exprs[:: max(1, len(exprs) // 8)][:8],
@@ -428,6 +469,10 @@ def run(ctx):
 
 
 def replay(ctx, case):
+    if case.get("idx_letters"):
+        n, v = run_idx_letters(0)
+        ctx.absorb([x for x in v if x[2]["expr"] == case["expr"]])
+        return
     if case.get("near_miss"):
         n, v = run_near_miss(0)
         ctx.absorb([x for x in v if x[2]["expr"] == case["expr"]])
